@@ -655,6 +655,103 @@ def finalize(m, rng, npoints):
 
 
 # =============================================================================================
+# text-template streams (oracle only; outside the Coq model, which has scalars and 1-D arrays)
+#   matrix: user functions with 2-D array arguments whose for-statements read row / column slices by the loop
+#           index, scalar elements, whole-matrix arguments
+#   alias : intra-array alias equations in both index orders (chains in for-loops and scalar equations, negated
+#           aliases), compiled with expand_vectors + detect_aliases (+ eliminate_constant_assignments) FIXED
+# Values of all variables come from the child's by-name default (salted per point).
+# =============================================================================================
+def text_points(rng, extra=()):
+    pts = []
+    for k in range(3):
+        p = {"time": rng.randint(-16, 16) / 8.0, "#salt": rng.randint(1, 10 ** 6)}
+        for n in extra:
+            p[n] = rng.randint(0, 1)
+        pts.append(p)
+    return pts
+
+
+def gen_matrix(rng):
+    r, c = rng.randint(2, 3), rng.randint(2, 3)
+    kc, kr = rng.randint(1, c), rng.randint(1, r)
+    row_terms = ["b[i] * sum(A[i, :])", "A[i, %d]" % kc, "sum(A[i, :]) * i", "b[i] * A[i, %d] + sum(A[i, :])" % kc,
+                 "sum(A[i, :]) - b[i]", "b[i] * sum(A[i, :]) + A[i, %d]" % kc]
+    col_terms = ["sum(A[:, j])", "A[%d, j] * j" % kr, "sum(A[:, j]) * A[1, j]", "sum(A[:, j]) - j"]
+    fn = "function g\n  input Real A[%d, %d];\n  input Real b[%d];\n  output Real s;\nalgorithm\n  s := %s;\n" % (
+        r, c, r, rng.choice(["b[1]", "b[1] + 1.5", "b[%d] * A[1, 1]" % r, "0 * b[1]"]))      # an unused input is rejected by the generator
+    loops = []
+    if rng.random() < 0.8:
+        loops.append("  for i in 1:%d loop\n    s := s %s %s;\n  end for;\n" % (r, rng.choice(["+", "-"]), rng.choice(row_terms)))
+    if rng.random() < 0.6 or not loops:
+        loops.append("  for j in 1:%d loop\n    s := s %s %s;\n  end for;\n" % (c, rng.choice(["+", "-"]), rng.choice(col_terms)))
+    if rng.random() < 0.3:
+        lo = rng.randint(1, 2)
+        loops.append("  for i in %d:%d loop\n    s := s * 0.5 + %s;\n  end for;\n" % (lo, r, rng.choice(row_terms)))
+    rng.shuffle(loops)
+    fn += "".join(loops) + "end g;\n"
+    two = rng.random() < 0.4
+    fn2 = ""
+    if two:       # a whole-matrix argument used without a loop, and scalar elements
+        fn2 = ("function h\n  input Real A[%d, %d];\n  input Real x;\n  output Real s;\nalgorithm\n  s := x * A[%d, %d] + sum(A[%d, :]);\n"
+               "  if s > 1 then\n    s := s - A[1, 1];\n  else\n    s := s + x;\n  end if;\nend h;\n" % (r, c, kr, kc, kr))
+    mdl = "model M\n  parameter Real p = %s;\n  Real A[%d, %d];\n  Real b[%d](each start = p, each max = 3 * p);\n  Real y;\n%s" % (
+        rng.choice(["2.0", "1.5", "0.5"]), r, c, r, "  Real y2;\n" if two else "")
+    mdl += "equation\n  y = g(A, b)%s;\n" % rng.choice(["", " + time", " * p"])
+    if two:
+        mdl += "  y2 = h(A, y) + g(A, b);\n"
+    mdl += "  for i in 1:%d loop\n    A[i, 1] = i * time;\n" % r
+    for k in range(2, c + 1):
+        mdl += "    A[i, %d] = b[i] + %d;\n" % (k, k)
+    mdl += "    der(b[i]) = -p * b[i];\n  end for;\ninitial equation\n  for i in 1:%d loop\n    b[i] = i * p;\n  end for;\nend M;\n" % r
+    return {"kind": "text", "name": "M", "text": fn + fn2 + mdl, "stream": "matrix", "points": text_points(rng)}
+
+
+def gen_alias(rng):
+    n = rng.randint(3, 5)
+    neg = lambda: rng.choice(["", "", "-"])      # noqa
+    eqs = []
+    # a chain inside a for-loop, either index order
+    form = rng.choice(["up", "down", "upneg", "scalar"])
+    if form == "up":
+        eqs.append("  for i in 2:n loop\n    w[i] = %sw[i - 1];\n  end for;\n" % neg())
+    elif form == "down":
+        eqs.append("  for i in 2:n loop\n    w[i - 1] = %sw[i];\n  end for;\n" % neg())
+    elif form == "upneg":
+        eqs.append("  for i in 1:n - 1 loop\n    w[i + 1] = %sw[i];\n  end for;\n" % neg())
+    else:
+        ks = list(range(2, n + 1))
+        rng.shuffle(ks)
+        for k in ks:
+            eqs.append("  w[%d] = %sw[%d];\n" % ((k, neg(), k - 1) if rng.random() < 0.5 else (k - 1, neg(), k)))
+    eqs.append("  w[%d] = sin(time);\n" % rng.choice([1, n]))
+    # scalar alias equations between elements of v, both orders
+    a, b = rng.sample([1, 2, 3], 2)
+    eqs.append("  v[%d] = %sv[%d];\n" % (a, neg(), b))
+    third = ({1, 2, 3} - {a, b}).pop()
+    eqs.append("  v[%d] = sq(x[2]);\n" % third)
+    eqs.append("  v[%d] = x[1] * x[3];\n" % rng.choice([a, b]))
+    if rng.random() < 0.5:      # an alias between different arrays and a scalar
+        eqs.append("  u = %sx[%d];\n" % (neg(), rng.randint(1, n)))
+    else:
+        eqs.append("  u = w[%d] + 1;\n" % rng.randint(1, n))
+    if rng.random() < 0.5:
+        eqs.append("  k = %s;\n" % rng.choice(["3", "1.5"]))      # a constant assignment
+    else:
+        eqs.append("  k = u * 2;\n")
+    rng.shuffle(eqs)
+    text = ("function sq\n  input Real v;\n  output Real w;\nalgorithm\n  w := v * v + 1;\nend sq;\n"
+            "model M\n  parameter Integer n = %d;\n  parameter Real p = 2.0;\n  Real x[n](each start = p);\n"
+            "  Real w[n](each max = 3 * p);\n  Real v[3];\n  Real u;\n  Real k;\nequation\n"
+            "  for i in 1:n loop\n    der(x[i]) = -p * sq(x[i]) + w[i];\n  end for;\n%s"
+            "initial equation\n  for i in 1:n loop\n    x[i] = i * p;\n  end for;\nend M;\n" % (n, "".join(eqs)))
+    fixed = {"check_balanced": False, "expand_vectors": True, "detect_aliases": True}
+    if rng.random() < 0.4:
+        fixed["eliminate_constant_assignments"] = True
+    return {"kind": "text", "name": "M", "text": text, "stream": "alias", "points": text_points(rng), "fixed": fixed}
+
+
+# =============================================================================================
 # ORACLE: the 8 compilations agree
 # =============================================================================================
 RTOL = 1e-9
@@ -961,7 +1058,7 @@ def has_call(m):
 def tag_of(m, case, res):
     """narrow tag of the known interaction: a syntactic simplification option is set, the model calls a user
     function, and the 8 results fall into two internally agreeing groups split exactly by inline_functions"""
-    if any(case["fixed"].get(k) for k in SYNTACTIC) and has_call(m) and "combos" in res:
+    if "decls" in m and any(case["fixed"].get(k) for k in SYNTACTIC) and has_call(m) and "combos" in res:
         for flag in (0, 1):
             idx = [i for i, c in enumerate(case["combos"]) if c[1] == flag]
             sub = dict(case)
@@ -995,7 +1092,7 @@ def run_models(ctx, cases):
 
 
 def slim(m):
-    return {k: m[k] for k in ("kind", "name", "N", "decls", "funs", "eqs", "ieqs", "stream", "text", "points")}
+    return {k: m[k] for k in ("kind", "name", "N", "decls", "funs", "eqs", "ieqs", "stream", "text", "points") if k in m}
 
 
 def run(ctx):
@@ -1007,9 +1104,9 @@ def run(ctx):
     ctx.notes["source_fingerprint"] = {BACKEND + "/generator.py": fp, BACKEND + "/model.py": fp2}
     f_tie = pool.submit(tie, ctx)
 
-    n_plain = int(os.environ.get("C12_N", 0)) or ctx.scaled(34, 1400)
-    n_delay = ctx.scaled(6, 150)
-    n_simpl = ctx.scaled(6, 150)
+    n_plain = int(os.environ.get("C12_N", 0)) or ctx.scaled(24, 1400)
+    n_delay = ctx.scaled(4, 150)
+    n_simpl = ctx.scaled(5, 150)
     npts = 3
     models = [finalize(m, ctx.rng, npts) for m in corpus()]
     n_corpus = len(models)
@@ -1020,6 +1117,12 @@ def run(ctx):
     cases = [to_case(m, PLAIN_FIXED) for m in models]
     simpl_models = models[:n_corpus] + [finalize(MG(ctx.rng).model("simpl"), ctx.rng, npts) for _ in range(n_simpl)]
     cases2 = [to_case(m, SIMPL_FIXED) for m in simpl_models]
+    # text-template streams (oracle only): matrix arguments / slices in function loops; intra-array aliases with
+    # expand_vectors + detect_aliases fixed
+    n_matrix = ctx.scaled(6, 160)
+    n_alias = ctx.scaled(8, 200)
+    text_models = [gen_matrix(ctx.rng) for _ in range(n_matrix)] + [gen_alias(ctx.rng) for _ in range(n_alias)]
+    cases3 = [to_case(m, m.get("fixed", PLAIN_FIXED)) for m in text_models]
     import time as _t
     t0 = _t.time()
     # stream 1 runs INTERLEAVED: groups of 2 (sometimes 3) different models, all 8 x k compilations first, then the
@@ -1029,14 +1132,15 @@ def run(ctx):
         k = 3 if (ctx.rng.random() < 0.25 and gi + 3 <= len(cases)) else 2
         groups.append(make_group(ctx.rng, list(range(gi, min(gi + k, len(cases)))), cases))
         gi += k
-    allres = run_models(ctx, [g["case"] for g in groups] + cases2)
+    allres = run_models(ctx, [g["case"] for g in groups] + cases2 + cases3)
     results = [None] * len(cases)
     group_of = {}
     for g, r in zip(groups, allres[:len(groups)]):
         for j, i in enumerate(g["members"]):
             group_of[i] = g
             results[i] = r["models"][j] if "models" in r else r        # a crash takes the whole group
-    results2 = allres[len(groups):]
+    results2 = allres[len(groups):len(groups) + len(cases2)]
+    results3 = allres[len(groups) + len(cases2):]
     ctx.notes["t_child_s"] = round(_t.time() - t0, 1)
 
     # (a) oracle
@@ -1045,7 +1149,9 @@ def run(ctx):
     rejected = 0
     feat = {}
     for stream, ms, cs, rs in (("no simplification option", models, cases, results),
-                               ("substitution options fixed", simpl_models, cases2, results2)):
+                               ("substitution options fixed", simpl_models, cases2, results2),
+                               ("text templates: matrix function arguments / intra-array aliases with expand_vectors+detect_aliases fixed",
+                                text_models, cases3, results3)):
         for mi_, (m, c, r) in enumerate(zip(ms, cs, rs)):
             why = judge(c, r)
             evals += n_values(r)
@@ -1072,7 +1178,7 @@ def run(ctx):
                     ctx.notes["rejected_samples"].append([r["combos"][0].get("exc"), r["combos"][0].get("msg", "")[:160]])
             for tok in ('"for"', '"fordelay"', '"delay"', '"tuple"', '"call"', '"if"', '"lidx"', '"loopvar"', '"der"', '"ifassign"',
                         '"and"', '"not"', '"par"'):
-                if tok in json.dumps([m["eqs"], m["ieqs"], m["funs"], m["decls"]]):
+                if "eqs" in m and tok in json.dumps([m["eqs"], m["ieqs"], m["funs"], m["decls"]]):
                     feat[tok.strip('"')] = feat.get(tok.strip('"'), 0) + 1
 
     f_props.result()
@@ -1118,12 +1224,15 @@ def run(ctx):
     ctx.cov["rule"] = ("%d generated models (%d corpus, %d plain, %d with a delay inside a loop) x 8 flag combinations x %d dyadic "
                        "points with no simplification option, plus %d models x 8 with the substitution options %s fixed; an "
                        "evaluation = one entry of one of the four output functions under one combination, compared with the "
-                       "same entry under (False, False, False); distinct non-trivial = distinct model texts compiled under "
+                       "same entry under (False, False, False); plus %d text-template models x 8 (matrix-argument functions with row/column "
+                       "slices in for-statements; intra-array alias chains in both index orders with expand_vectors+detect_aliases "
+                       "[+eliminate_constant_assignments] fixed); distinct non-trivial = distinct model texts compiled under "
                        "all 8 combinations (%d rejected under all 8 alike); %d Coq correspondence cases (8 observations each)"
                        % (len(models), n_corpus, n_plain, n_delay, npts, len(simpl_models),
-                          sorted(k for k in SIMPL_FIXED if k != "check_balanced"), rejected, len(enc)))
+                          sorted(k for k in SIMPL_FIXED if k != "check_balanced"), len(text_models), rejected, len(enc)))
     ctx.cov["samples"] = [models[n_corpus]["text"], models[n_corpus + 1]["text"][:700]]
-    ctx.notes["input_distribution"] = {"models_using": feat, "models": len(models) + len(simpl_models),
+    ctx.notes["input_distribution"] = {"models_using": feat, "models": len(models) + len(simpl_models) + len(text_models),
+                                       "text_streams": {"matrix": n_matrix, "alias": n_alias},
                                        "flag_combinations": COMBOS}
     ctx.assumptions += [
         "CasADi's contract (Section hypotheses of Proofs/C12_options.v, `strategies_ok`): the value of a mapped function "
